@@ -24,6 +24,7 @@ import time
 
 HERE = os.path.dirname(os.path.abspath(__file__))
 sys.path.insert(0, os.path.dirname(HERE))
+sys.path.insert(0, HERE)
 sys.setrecursionlimit(10000)
 
 from fpsa import absint, rounding                                     # noqa: E402
@@ -31,7 +32,7 @@ from fpsa.absint import Interp, Opts, Agg, Int, K, ByRef, SliceVal    # noqa: E4
 from fpsa.poly import pthaw                                           # noqa: E402
 from fpsa.harness import get_db                                       # noqa: E402
 
-SPECS = ['c01', 'c02', 'c03', 'c04', 'c05', 'c08', 'c09', 'c10', 'c12', 'c13', 'c14', 'c15', 'c16']
+SPECS = ['c01', 'c02', 'c03', 'c04', 'c05', 'c06', 'c08', 'c09', 'c10', 'c12', 'c13', 'c14', 'c15', 'c16']
 MODES = rounding.MODES
 
 
@@ -71,8 +72,9 @@ def round_spec(mode, N, D):
 
 
 class Env:
-    def __init__(self, atoms, x0, mode, state=None):
+    def __init__(self, atoms, x0, mode, state=None, raw=None):
         self.atoms, self.x0, self.mode, self.state = atoms, x0, mode, state
+        self.raw = raw              # the bytes of the input string (parser runs): position = remaining length
         self.cache = {}
 
     def atom(self, a, use_subst=True):
@@ -128,6 +130,14 @@ class Env:
             return round_spec(mk, N, D)
         if k == 'gcd':
             return math.gcd(abs(self.poly(pthaw(d[1]))), 10 ** d[2])
+        if k == 'byteat':
+            if self.raw is None:
+                raise Unknown('no input string')
+            pos = self.poly(pthaw(d[1]))
+            idx = len(self.raw) - pos
+            if 0 <= idx < len(self.raw):
+                return self.raw[idx]
+            raise Unknown('no byte at that position')
         c = self.atoms.cond.get(a)
         if c is not None and c[0] == 'sign':
             # a boolean atom: the truth value of a sign condition
@@ -145,6 +155,107 @@ class Env:
                 v *= self.atom(a)
             tot += v
         return tot
+
+
+def define_parser_atoms(env, s):
+    """the run lengths and value terms contract A introduced on this path, computed from the input string: an event (kind, remaining length
+    before the run, length term) fixes the one undefined atom of its length term; the value term of a digit run is the numeral read so far
+    (coefficient) resp. the exponent accumulated with the cut-off of accum_exp.  Substitutions are used as equations in both directions.
+    Returns a refutation (an event whose length term evaluates to something else than the maximal run in the string) or None."""
+    raw = env.raw
+    L = len(raw)
+    events = s.ghost.get('events') or ()
+    values = s.ghost.get('values') or ()
+
+    def propagate():
+        progress = True
+        while progress:
+            progress = False
+            for a, p in s.subst.items():
+                try:
+                    env.atom(a)
+                    continue
+                except Unknown:
+                    pass
+                # a := p : either p is evaluable (then a is, through the substitution) or p has one undefined atom and a is known another way
+            for a, p in s.subst.items():
+                eq = dict(p)
+                eq[(a,)] = eq.get((a,), 0) - 1          # p - a = 0
+                before = len(env.cache)
+                r = solve_single(env, eq, 0, use_subst=False)
+                if r == 'solved':
+                    progress = True
+    propagate()
+    numeral = ''
+    for i, (kind, before, kf) in enumerate(events):
+        try:
+            b = env.poly(pthaw(before))
+        except Unknown:
+            return None
+        idx = L - b
+        if not (0 <= idx <= L):
+            return 'event %d (%s) starts outside the string' % (i, kind)
+        cls = b'0' if kind == 'zeros' else b'0123456789'
+        k = 0
+        while idx + k < L and raw[idx + k] in cls:
+            k += 1
+        r = solve_single(env, pthaw(kf), k)
+        if r == 'differs':
+            return 'event %d: the path says the %s run at index %d has another length than the %d in the string' % (i, kind, idx, k)
+        if r is False:
+            return None
+        propagate()
+        run = raw[idx:idx + k].decode()
+        val = values[i][1] if i < len(values) else None
+        if kind == 'digits':
+            numeral += run
+            if val is not None:
+                if solve_single(env, pthaw(val), int(numeral) if numeral else 0) == 'differs':
+                    return 'event %d: value term of the numeral differs' % i
+        elif kind == 'expdigits' and val is not None:
+            e = 0
+            for ch in run:
+                if e < 0x1000000:
+                    e = e * 10 + int(ch)
+            if solve_single(env, pthaw(val), e) == 'differs':
+                return 'event %d: value term of the exponent differs' % i
+        propagate()
+    return None
+
+
+def solve_single(env, p, target, use_subst=True):
+    """make the polynomial p evaluate to target by defining its single undefined atom (linear, coefficient +-1).
+    'solved' (an atom was defined), True (already evaluable and equal), 'differs' (evaluable, another value), False (not solvable)"""
+    unknown = None
+    rest = 0
+    for mono, c in p.items():
+        und = []
+        for a in mono:
+            try:
+                env.atom(a, use_subst)
+            except Unknown:
+                und.append(a)
+        if not und:
+            v = c
+            for a in mono:
+                v *= env.atom(a, use_subst)
+            rest += v
+        elif len(und) == 1 and len(mono) == 1 and unknown is None and c in (1, -1):
+            unknown = (und[0], c)
+        else:
+            return False
+    if unknown is None:
+        return True if rest == target else 'differs'
+    a, c = unknown
+    if env.atoms.desc[a][0] != 'fresh' or a in env.atoms.cond:
+        return False            # an atom with a definition of its own (a byte, a quotient, a condition) is never defined by an equation
+    v = (target - rest) * c
+    # forget the failures cached so far: they may depend on the atom defined now
+    for k_ in [k_ for k_, v_ in env.cache.items() if isinstance(v_, Unknown)]:
+        del env.cache[k_]
+    env.cache[(a, True)] = v
+    env.cache[(a, False)] = v
+    return 'solved'
 
 
 def check_facts(env, s):
@@ -320,7 +431,7 @@ def concretise(env, v):
     return v
 
 
-def concrete_run(db, I0, cap, x0, mode_idx):
+def concrete_run(db, I0, cap, x0, mode_idx, raw=None):
     opts = Opts(summaries={rounding.default_mode_fn(db)['id']: rounding.summ_default_mode}, mode=mode_idx, max_paths=64, profile=I0.opts.profile)
     opts.precision = I0.opts.precision
     I = Interp(db, opts)
@@ -328,15 +439,35 @@ def concrete_run(db, I0, cap, x0, mode_idx):
     st = I.new_state()
     st.decomp_depth = 2
     env = Env(cap['st0'].atoms, x0, None, cap['st0'])
-    args = [concretise(env, a) for a in cap['args']]
+    if raw is not None:
+        from fpsa.poly import pconst, pfreeze
+        opts.byte_positions = True
+        L = len(raw)
+        for k, b in enumerate(raw):
+            st.bounds[st.atoms.get(('byteat', pfreeze(pconst(L - k))))] = (b, b)
+        args = [SliceVal(K(L, 'usize'), a.tag) if isinstance(a, SliceVal) else concretise(env, a) for a in cap['args']]
+    else:
+        args = [concretise(env, a) for a in cap['args']]
     # the concrete run uses its own atom table: values are constants, nothing is shared
     _orig_call_root(I, st, cap['fn'], args, cap['gsubst'])
     outs = _orig_explore(I, st)
     if len(outs) != 1 or outs[0].kind not in ('ret', 'panic'):
         raise Unknown('concrete run: %s' % [(o.kind, str(o.value)[:80]) for o in outs][:3])
     o = outs[0]
-    env2 = Env(o.state.atoms, {}, None, o.state)
-    return o.kind, (plain(env2, o.value) if o.kind == 'ret' else None)
+    return o.kind, (plain_concrete(o.state, o.value) if o.kind == 'ret' else None)
+
+
+def plain_concrete(s, v):
+    if isinstance(v, Int):
+        lo, hi = s.itv(v)
+        return lo if lo == hi else WILD
+    if isinstance(v, Agg):
+        return (v.kind, v.variant) + tuple(plain_concrete(s, f) for f in v.fields)
+    if isinstance(v, ByRef):
+        return plain_concrete(s, v.v)
+    if isinstance(v, str) or v is None or isinstance(v, (int, bool)):
+        return v
+    return WILD
 
 
 def norm_plain(p):
@@ -354,8 +485,17 @@ def check_capture(db, rnd, I0, cap, outs, npoints, stats, report):
     # (B) is only meaningful when the symbolic run used no contract summaries: a summary may fail non-deterministically (an overflow exit whose
     # condition is a note, not a fact), so a 'consistent' failure outcome is then an over-approximation, not a claim
     check_b = set(I0.opts.summaries) <= {rounding.default_mode_fn(db)['id']}
+    if any(isinstance(a, SliceVal) for a in cap['args']):
+        check_b = True      # parser: contract A is deterministic once its run lengths and value terms are defined from the string
+    is_str = any(isinstance(a, SliceVal) for a in cap['args'])
     for _ in range(npoints):
-        x0 = sample_point(rnd, st0)
+        raw = None
+        if is_str:
+            import conformance
+            raw = conformance.gen_literal(rnd).encode()
+            x0 = {'len': len(raw)}
+        else:
+            x0 = sample_point(rnd, st0)
         if x0 is None:
             stats['no-point'] += 1
             return
@@ -365,7 +505,7 @@ def check_capture(db, rnd, I0, cap, outs, npoints, stats, report):
             midx = rnd.choice(sorted(mode_names))
         mname = mode_names[midx]
         try:
-            kind0, val0 = concrete_run(db, I0, cap, x0, midx)
+            kind0, val0 = concrete_run(db, I0, cap, x0, midx, raw)
         except Unknown as u:
             stats['ref-unknown'] += 1
             if os.environ.get('ABSCOVER_VERBOSE'):
@@ -380,7 +520,10 @@ def check_capture(db, rnd, I0, cap, outs, npoints, stats, report):
         stats['points'] += 1
         covered = False
         for o in outs:
-            env = Env(o.state.atoms, x0, mname, o.state)
+            env = Env(o.state.atoms, x0, mname, o.state, raw)
+            if raw is not None and o.kind != 'unknown':
+                if define_parser_atoms(env, o.state) is not None:
+                    continue            # refuted by its scanner events
             if o.kind == 'unknown':
                 covered = True          # an incomplete analysis claims nothing
                 continue
@@ -403,15 +546,39 @@ def check_capture(db, rnd, I0, cap, outs, npoints, stats, report):
                 covered = True
             elif n_skip == 0 and check_b and not has_wild(v):
                 stats['B-mismatch'] += 1
-                report.append('B %s x0=%s mode=%s: consistent outcome returns %s, concrete run %s' % (cap['fn']['id'], x0, mname, str(v)[:160], str(val0)[:160]))
+                report.append('B %s x0=%s%s mode=%s: consistent outcome returns %s, concrete run %s' % (cap['fn']['id'], x0, (' input %r' % raw) if raw is not None else '', mname, str(v)[:160], str(val0)[:160]))
         if not covered:
             stats['A-uncovered'] += 1
             report.append('A %s x0=%s mode=%s: no abstract outcome covers the concrete behaviour %s %s (outcomes: %s)'
                           % (cap['fn']['id'], x0, mname, kind0, str(val0)[:120], [o.kind for o in outs][:8]))
 
 
+def work_parser(arg):
+    """the one exploration of str_to_dec shared by the value and the grammar clause of C06, against generated literals"""
+    npoints, seed = arg
+    global CAPT
+    db = get_db()
+    rnd = random.Random(seed)
+    from fpsa.specs import c06
+    stats = {k: 0 for k in ('captures', 'points', 'facts', 'facts-skipped', 'A-uncovered', 'B-mismatch', 'ref-unknown', 'no-point', 'job-errors')}
+    report = []
+    Interp.call_root = _call_root
+    Interp.explore = _explore
+    CAPT = []
+    c06.setup_thresholds(db)
+    c06.explore_parser(db)
+    caps = CAPT
+    CAPT = None
+    for (I0, cap, outs) in caps:
+        stats['captures'] += 1
+        check_capture(db, rnd, I0, cap, outs, npoints, stats, report)
+    return 'c06', stats, report
+
+
 def work(arg):
     spec, jobs, npoints, seed = arg
+    if spec == 'c06':
+        return work_parser((npoints, seed))
     global CAPT
     db = get_db()
     rnd = random.Random(seed)
@@ -490,6 +657,10 @@ def main():
     rnd = random.Random(seed)
     tasks = []
     for spec in specs:
+        if spec == 'c06':
+            for k in range(8):
+                tasks.append(('c06', None, max(npoints * njobs // 8, 1), rnd.randrange(10 ** 9)))
+            continue
         jobs = job_lists(spec)
         jobs = [j for j in jobs if not (isinstance(j, tuple) and j and j[0] == 'dep')]
         rnd.shuffle(jobs)
